@@ -275,6 +275,14 @@ def run(e: Engine, rep: Report):
              'answers with an "unhandled error" 421 of its own: a second '
              'final reply after the 221 / 421 that ended the session)')
     r717(e, rep)
+    rep.rule('R7.18', 'the edge session forgets its envelope where the '
+             'server forgets the transaction (table ENVELOPE_FORGETTERS: '
+             'accepted EHLO / HELO, RSET, after the message data) and '
+             'nowhere else: a refused DATA leaves MAIL and RCPT standing on '
+             'the server, so the session still needs the envelope for the '
+             'RCPT / DATA that may follow')
+    rep.tables.add('c07.ENVELOPE_FORGETTERS')
+    r718(e, rep)
     rep.floor('R7.1', 10, 'callback sites')
     rep.floor('R7.3', 12, 'command handlers')
     rep.floor('R7.4', 10, 'mutable reply sends')
@@ -1298,6 +1306,46 @@ def r712(e: Engine, rep: Report):
     if n < 2:
         rep.error('anchor vanished: except arms around the dispatch in '
                   'Server.handle (%d < 2)' % n)
+
+
+# ------------------------------------------------------------------ R7.18
+# session callbacks after which the server has no open mail transaction
+ENVELOPE_FORGETTERS = {'EHLO', 'HELO', 'RSET', 'HAVE_DATA', '__init__'}
+
+
+def r718(e: Engine, rep: Report):
+    c = e.p.classes.get(SESSION)
+    if c is None:
+        rep.error('anchor vanished: ' + SESSION)
+        return
+    owners = common.owner_closure(e, SESSION, set(ENVELOPE_FORGETTERS))
+    n = 0
+    for mname, m in sorted(c.methods.items()):
+        for x in walk_own(m.node):
+            if not (isinstance(x, ast.Assign) and any(
+                    isinstance(t, ast.Attribute) and t.attr == 'envelope' and
+                    isinstance(t.value, ast.Name) and t.value.id == 'self'
+                    for t in x.targets) and
+                    isinstance(x.value, ast.Constant) and
+                    x.value.value is None):
+                continue
+            n += 1
+            rep.evaluations += 1
+            rep.functions.add(m.qname)
+            rep.check(mname in owners, 'R7.18', m.qname,
+                      'the envelope is dropped by %s' % mname,
+                      'the session drops its envelope in %s, which also '
+                      'runs where the server keeps the transaction open (a '
+                      'refused DATA): the client may go on with RCPT or '
+                      'DATA, the server accepts the command (MAIL / RCPT '
+                      'are still on record there) and the session callback '
+                      'finds no envelope - the session dies with a 421 '
+                      'instead of continuing the transaction' % mname,
+                      loc=m.loc(x), reason='one of %s or a helper only they '
+                      'use' % sorted(ENVELOPE_FORGETTERS - {'__init__'}))
+    if n < 1:
+        rep.error('anchor vanished: `self.envelope = None` in the edge '
+                  'session')
 
 
 # ------------------------------------------------------------------ R7.17
